@@ -16,7 +16,10 @@ def setup():
     import gen_all
     gen_all.run(verbose=True)
     vlib.coq_project()
-    targets = [f + 'o' for f in vlib.coq_sources()]
+    # build what the registered checks need (props/Cxx.vo and dependencies)
+    man = json.load(open(os.path.join(vlib.VERIF, 'MANIFEST.json')))
+    targets = ['props/%s.vo' % c['property_id'] for c in man['checks']
+               if os.path.exists(os.path.join(vlib.COQ, 'props', c['property_id'] + '.v'))]
     ok, log = vlib.coq_make(targets, timeout=3000)
     sys.stdout.write(log[-3000:])
     bad = vlib.scan_forbidden()
